@@ -344,7 +344,16 @@ func runSolver(ctx context.Context, sp solverSpec, file string, sec int) (status
 	_ = cmd.Run()
 	dur = time.Since(t0).Seconds()
 	out = buf.String()
-	first := strings.TrimSpace(strings.SplitN(out, "\n", 2)[0])
+	// the status is the first line that is not a solver warning (z3: "WARNING: ... cannot be used in patterns")
+	first := ""
+	for _, ln := range strings.Split(out, "\n") {
+		ln = strings.TrimSpace(ln)
+		if ln == "" || strings.HasPrefix(ln, "WARNING:") {
+			continue
+		}
+		first = ln
+		break
+	}
 	switch {
 	case first == "unsat":
 		status = "unsat"
